@@ -164,6 +164,15 @@ func topoPkgs(roots []*packages.Package) []*packages.Package {
 
 func (w *World) register(pi *PkgInfo, cf *ContractFile, stdlib bool) error {
 	w.pendingGhosts = append(w.pendingGhosts, cf.Ghosts...)
+	for _, gv := range cf.GhostVars {
+		if w.ghostVars == nil {
+			w.ghostVars = map[string]*ghostVarInfo{}
+		}
+		if _, dup := w.ghostVars[gv.Name]; dup {
+			return fmt.Errorf("%s: duplicate ghost var %s", cf.Path, gv.Name)
+		}
+		w.ghostVars[gv.Name] = &ghostVarInfo{id: len(w.ghostVars) + 1, text: gv.Type}
+	}
 	for _, sf := range cf.Specs {
 		if _, dup := w.specs[sf.Name]; dup {
 			return fmt.Errorf("%s: duplicate spec function %s", cf.Path, sf.Name)
